@@ -1,6 +1,6 @@
 CONSTANT Tier = "quick"
 CONSTANT MaxN = 5
-CONSTANT Modes = {"P"}
+CONSTANT Modes = {"P", "K"}
 INIT Init
 NEXT Next
 INVARIANT GeneratedWellFormed
